@@ -160,6 +160,7 @@ BASE = [int, float, bool, str]
 class GOpts(object):
     def __init__(self, **kw):
         self.untyped = False       # constructs the inferrer cannot type (known finding shapes)
+        self.loopelse = False      # start with nested loops whose else clauses break / continue the enclosing loop
         self.loopmut = False       # start with: loop { if-without-else / inner loop { x = <other type> } ; read x }
         self.nested = True
         self.max_stmts = 12
@@ -340,7 +341,7 @@ class Gen(object):
         if depth < 2 and self.budget > 0:
             kinds += ['if'] * 3 + ['while'] + ['for']
         if depth == 0 and not infun and not self.inloop:
-            kinds += ['loopmut']
+            kinds += ['loopmut', 'loopelse']
         if self.o.nested and not infun and depth == 0 and self.nfun < 2:
             kinds += ['def'] * 2 + ['condef'] * 2
         if self.funs and not infun:
@@ -476,6 +477,8 @@ class Gen(object):
             return self.condef(ind, env)
         if k == 'loopmut':
             return self.loopmut(ind, env)
+        if k == 'loopelse':
+            return self.loopelse(ind, env)
         if k == 'lcall':
             g = r.choice(sorted(self.funs))
             npar, rebinds = self.funs[g]
@@ -568,6 +571,65 @@ class Gen(object):
         ts = {t0, str, float, bool} if t1 is None else ({t0, t1} if t1 is not str or 'tostr' in form or True else {t0, t1})
         env[x] = set(ts) | {str}
         env[y] = set(env[x])
+        return env
+
+    def loopelse(self, ind, env):
+        """Loops nested 2-3 deep; inner loops carry an `else:` clause that re-types a variable and then leaves
+        (break) or continues the ENCLOSING loop; the variable is re-assigned on the fall-through path and read
+        after the loops.  (A jump in a loop's else clause belongs to the enclosing loop.)"""
+        r = self.r
+        env = dict(env)
+        x, y = r.sample(VARS, 2)
+        vals = [('1', int), ('0.5', float), ("'s'", str), ('True', bool), ('G_TUP', (int, str)), ('[]', list)]
+        r.shuffle(vals)
+        used = set()
+
+        def setx(ind2):
+            v, t = vals[len(used) % len(vals)]
+            used.add(t)
+            self.emit(ind2, '%s = %s' % (x, v))
+
+        def head(ind2, trips):
+            self.nloop += 1
+            n = 'n%d' % self.nloop
+            if r.random() < 0.5:
+                self.emit(ind2, 'for %s in (%s):' % (n, ''.join('%d, ' % i for i in range(trips))))
+            else:
+                self.emit(ind2, '%s = 0' % n)
+                self.emit(ind2, 'while %s < %d:' % (n, trips))
+                self.emit(ind2 + 1, '%s = %s + 1' % (n, n))
+
+        def inner(ind2, level):
+            # an inner loop with an else clause that jumps in the enclosing loop
+            head(ind2, r.choice([0, 1, 2]))
+            if level < 3 and r.random() < 0.35:
+                inner(ind2 + 1, level + 1)
+            else:
+                self.emit(ind2 + 1, '%s = %s' % (y, x))
+            if r.random() < 0.25:
+                self.emit(ind2 + 1, 'if %s:' % r.choice(['a', 'b', 'False']))
+                setx(ind2 + 2)
+                self.emit(ind2 + 2, 'break')
+            self.emit(ind2, 'else:')
+            setx(ind2 + 1)
+            self.emit(ind2 + 1, r.choice(['break', 'break', 'continue']))
+
+        setx(ind)
+        self.emit(ind, '%s = %s' % (y, x))
+        head(ind, r.choice([1, 2, 3]))
+        if r.random() < 0.5:
+            setx(ind + 1)
+        inner(ind + 1, 2)
+        setx(ind + 1)                    # fall-through path
+        if r.random() < 0.5:
+            self.emit(ind + 1, '%s = %s' % (y, x))
+        if r.random() < 0.3:
+            self.emit(ind, 'else:')
+            setx(ind + 1)
+        self.emit(ind, '%s = %s' % (y, x))
+        self.emit(ind, '(%s, %s)' % (x, y))
+        env[x] = set(used)
+        env[y] = set(used)
         return env
 
     def emit_def(self, ind, g, npar, rebinds, pname):
@@ -812,6 +874,9 @@ class Gen(object):
             self.defined_outer.add(v)
         if self.o.loopmut:
             self.force = ['loopmut']
+            env = self.stmt(1, env, 0, False)
+        if self.o.loopelse:
+            self.force = ['loopelse']
             env = self.stmt(1, env, 0, False)
         if self.o.nested and self.r.random() < 0.8:
             # a local function, called right away and again later, in most programs of the nested streams
@@ -1537,3 +1602,80 @@ def index_statements(prog):
     rec(prog.tree, None)
 
 
+
+
+# --------------------------------------------------------------------------------------------
+# executed transitions between statements must be edges of the CFG the inference walked
+
+def path_failures(prog, an, runs):
+    """The statements of each function in the order they produced events (expression evaluations, bindings);
+    a transition a -> b is accepted when b is reachable from a in the function's cfg.Graph through nodes that
+    produce no event (break / continue / pass / the head of a for loop when it is exhausted).  A missing
+    edge means the inference never propagated the type map along a path that executes."""
+    if not hasattr(prog, 'stmt_index'):
+        index_statements(prog)
+    succ = {}
+    silent = set()
+    known_nodes = set()
+    for g in an.graphs.values():
+        for a, n in g.index.items():
+            k = prog.num.get(id(a))
+            if k is None:
+                continue
+            known_nodes.add(k)
+            succ[k] = [prog.num[id(m.ast_node)] for m in n.next if id(m.ast_node) in prog.num]
+            if isinstance(a, (ast.Break, ast.Continue, ast.Pass, ast.Nonlocal, ast.Global)):
+                silent.add(k)
+    for n in prog.nodes:
+        if isinstance(n, ast.For):
+            silent.add(prog.num[id(n.iter)])
+
+    def allowed(a, b):
+        seen = set()
+        todo = [a]
+        while todo:
+            k = todo.pop()
+            for m in succ.get(k, ()):
+                if m == b:
+                    return True
+                if m in silent and m not in seen:
+                    seen.add(m)
+                    todo.append(m)
+        return False
+
+    out = []
+    seen_t = set()
+    for ri, (rec, res) in enumerate(runs):
+        last = {}
+        for ev in rec.events:
+            if ev[0] == 'E':
+                k = ev[1]
+                st = stmt_of(prog, k)
+                fn = prog.fun_of(k)
+            elif ev[0] == 'B':
+                st = ev[3][0]
+                fn = prog.fun_of(ev[1])
+                if isinstance(prog.nodes[st], ast.FunctionDef):
+                    fn = prog.parent_fun.get(id(prog.nodes[st]), prog.fn) if prog.nodes[st] is not prog.fn else None
+                if isinstance(prog.nodes[st], ast.arguments):
+                    last[id(fn)] = st         # a new activation starts at the arguments node
+                    continue
+            elif ev[0] == 'BE' and isinstance(prog.nodes[ev[1]], ast.arguments):
+                last[id(prog.fun_of(ev[1]))] = ev[1]      # a new activation (also of a function without parameters)
+                continue
+            else:
+                continue
+            if st is None or fn is None or st not in known_nodes:
+                continue
+            a = last.get(id(fn))
+            last[id(fn)] = st
+            if a is None or a == st or (a, st) in seen_t:
+                continue
+            seen_t.add((a, st))
+            if not allowed(a, st):
+                na, nb = prog.nodes[a], prog.nodes[st]
+                out.append({'kind': 'path', 'event': 'P', 'node': st, 'line': getattr(nb, 'lineno', None),
+                            'text': '%s -> %s' % (ast.unparse(na).split('\n')[0][:40], ast.unparse(nb).split('\n')[0][:40]),
+                            'from_line': getattr(na, 'lineno', None), 'reported': [], 'runtime': '', 'writer': None,
+                            'run': ri, 'cause': None})
+    return out
